@@ -30,11 +30,12 @@ def spec(tier):
                     sym["zp1"] = Z
                 if th and (clo > 0 and nops == 3):
                     sym["zp2"] = Z
-                if (nops >= 3 and not th) or (th and nops >= 4 and clo > 0):
+                if (nops >= 3 and not th) or (th and clo > 0):
                     for (plo, phi) in ((-4.0, 0.0), (0.0, 4.0)):
                         s2 = dict(sym)
                         s2["zp0"] = ("float", plo, phi)
-                        obs.append(CH(name=f"structure_plan{pi}_probs{qi}_c{int(clo)}_p{int(plo)}", harness="c15.gen_structure", sym=s2, fixed=fixed, timeout=1200))
+                        obs.append(CH(name=f"structure_plan{pi}_probs{qi}_c{int(clo)}_p{int(plo)}", harness="c15.gen_structure", sym=s2, fixed=fixed,
+                                      timeout=3600 if th else 1200))
                 else:
                     obs.append(CH(name=f"structure_plan{pi}_probs{qi}_c{int(clo)}", harness="c15.gen_structure", sym=sym, fixed=fixed, timeout=1200))
     # other ratios
